@@ -5,6 +5,8 @@ import (
 	"go/ast"
 	"go/token"
 	"go/types"
+	"reflect"
+	"sort"
 	"strings"
 
 	"golang.org/x/tools/go/ssa"
@@ -29,6 +31,8 @@ func checkC06(c *Ctx, r *Report) {
 	c06G5(c, r, a)
 	c06G2(c, r, a)
 	c06G1(c, r, a)
+	c06Prefixer(c, r)
+	c06NilKinds(c, r)
 	c06G3(c, r, a)
 	c06G4(c, r, a)
 }
@@ -709,4 +713,118 @@ func delegatesTo(call *ssa.Call, target *ssa.Function) bool {
 		}
 	}
 	return true
+}
+
+// c06Prefixer: the path of an error is assembled by prefixing one segment per level while the recursion
+// unwinds. The prefixing functions therefore prepend unconditionally: a prefix that is skipped when the
+// path already starts with the same segment drops a level whenever two adjacent segments of the true
+// path are equal (node{node{..}}, grid[1][1]).
+func c06Prefixer(c *Ctx, r *Report) {
+	r.rule("C06.PREFIX", "(*Error).in stores append([loc], Path...) into Path on every path to its return; Errors.in calls it for every member that is an *Error")
+	in := c.fn("(*Error).in")
+	if in == nil {
+		r.undecided("C06.PREFIX", "anchor (*Error).in", 0, "not found")
+		return
+	}
+	// every return is dominated by a store to Error.Path whose value is an append starting with a fresh one-element slice holding loc
+	var locP *ssa.Parameter
+	for _, p := range in.Params {
+		if isEmptyIface(p.Type()) {
+			locP = p
+		}
+	}
+	var stores []*ssa.Store
+	for _, b := range in.Blocks {
+		for _, ins := range b.Instrs {
+			if st, ok := ins.(*ssa.Store); ok {
+				if fa, ok := st.Addr.(*ssa.FieldAddr); ok {
+					if o, f := fieldOwner(fa.X.Type(), fa.Field); o == "Error" && f == "Path" {
+						stores = append(stores, st)
+					}
+				}
+			}
+		}
+	}
+	okAll := len(stores) > 0
+	why := "no store to Error.Path"
+	for _, rt := range returnsOf(in) {
+		dom := false
+		for _, st := range stores {
+			if st.Block() == rt.Block() || st.Block().Dominates(rt.Block()) {
+				// value: append(<slice literal [loc]>, Path...)
+				if call, ok := st.Val.(*ssa.Call); ok && isBuiltinCall(call, "append") {
+					if els, ok := sliceLitElems(call.Call.Args[0]); ok && len(els) == 1 && stripIface(els[0]) == ssa.Value(locP) {
+						dom = true
+					}
+				}
+			}
+		}
+		if !dom {
+			okAll = false
+			why = "a return at " + c.pos(rt.Pos()) + " is reached without Path = append([loc], Path...)"
+		}
+	}
+	r.check("C06.PREFIX", "(*Error).in prepends the location unconditionally", in.Pos(), okAll, why+": a segment is dropped where the true path repeats a key or an index, so the reported path does not address the failing position")
+	// Errors.in: the call of (*Error).in sits in a loop over the receiver and is conditioned only by errors.As
+	es := c.fn("(Errors).in")
+	if es == nil {
+		r.undecided("C06.PREFIX", "anchor (Errors).in", 0, "not found")
+		return
+	}
+	okE := false
+	for _, ci := range callsIn(es) {
+		if ci.Common().StaticCallee() != in {
+			continue
+		}
+		okE = inLoop(ci.Block())
+	}
+	r.check("C06.PREFIX", "(Errors).in prefixes every member that carries a path", es.Pos(), okE, "the per-member prefix is not applied in a loop over the group")
+}
+
+// c06NilKinds: "the value at the failing position is null" rests on IsNil recognising every nil a resolver can
+// return next to its error: a nil pointer, but also a nil map, slice, func, channel or interface. The data-word
+// test does; a reflect-based test must cover all nilable kinds.
+func c06NilKinds(c *Ctx, r *Report) {
+	r.rule("C06.NILKINDS", "IsNil is the data-word test, or applies reflect.Value.IsNil under a kind test that admits Ptr, Map, Slice, Func, Chan, Interface (and UnsafePointer)")
+	fn := c.fn("IsNil")
+	if fn == nil {
+		r.undecided("C06.NILKINDS", "anchor IsNil", 0, "not found")
+		return
+	}
+	usesReflectIsNil := false
+	kinds := map[int64]bool{}
+	for _, b := range fn.Blocks {
+		for _, in := range b.Instrs {
+			switch t := in.(type) {
+			case *ssa.Call:
+				if f := calleeObj(t); f != nil && f.Pkg() != nil && f.Pkg().Path() == "reflect" && f.Name() == "IsNil" {
+					usesReflectIsNil = true
+				}
+			case *ssa.BinOp:
+				if t.Op == token.EQL {
+					if call, ok := t.X.(*ssa.Call); ok {
+						if f := calleeObj(call); f != nil && f.Name() == "Kind" {
+							if k, ok := t.Y.(*ssa.Const); ok && k.Value != nil {
+								kinds[k.Int64()] = true
+							}
+						}
+					}
+				}
+			}
+		}
+	}
+	if !usesReflectIsNil {
+		r.check("C06.NILKINDS", "IsNil recognises every nilable kind", fn.Pos(), true, "data-word test (no reflect.Value.IsNil)")
+		return
+	}
+	need := map[string]reflect.Kind{"Ptr": reflect.Ptr, "Map": reflect.Map, "Slice": reflect.Slice, "Func": reflect.Func, "Chan": reflect.Chan, "Interface": reflect.Interface}
+	var missing []string
+	for n, k := range need {
+		if !kinds[int64(k)] {
+			missing = append(missing, n)
+		}
+	}
+	sort.Strings(missing)
+	r.check("C06.NILKINDS", "IsNil recognises every nilable kind", fn.Pos(), len(missing) == 0,
+		"the reflect-based test does not admit the kinds "+strings.Join(missing, ", ")+": a typed nil of such a kind returned next to an error is not seen as nil, so the failing position holds an object of nulls instead of null and the fields below it fail again (more than one entry for one failure)")
 }
